@@ -44,8 +44,16 @@ func Spec(t *rapid.T) *hist.DSpec {
 			d.Chunk = append(d.Chunk, uint64(rapid.IntRange(1, int(e)).Draw(t, "chunk")))
 		}
 		if rapid.Bool().Draw(t, "resizable") {
-			for range d.Dims {
-				d.MaxDims = append(d.MaxDims, hdf5.Unlimited)
+			// maximum extents: unlimited, exactly the initial extent, or a little above it (per dimension)
+			for _, e := range d.Dims {
+				switch rapid.IntRange(0, 3).Draw(t, "maxkind") {
+				case 0:
+					d.MaxDims = append(d.MaxDims, e)
+				case 1:
+					d.MaxDims = append(d.MaxDims, e+uint64(rapid.IntRange(1, 6).Draw(t, "headroom")))
+				default:
+					d.MaxDims = append(d.MaxDims, hdf5.Unlimited)
+				}
 			}
 		}
 		// filtered chunks: the library's own reader cannot read them back (KF-C08-01) but the stored bytes must still be
@@ -145,8 +153,12 @@ func Mixed(t *rapid.T, maxOps int) (int, []hist.Op) {
 			case "resize":
 				if o.kind == "dataset" && o.d.MaxDims != nil {
 					var dims []uint64
-					for range o.d.Dims {
-						dims = append(dims, uint64(rapid.IntRange(1, 12).Draw(t, "newExtent")))
+					for i := range o.d.Dims {
+						hi := uint64(12)
+						if m := o.d.MaxDims[i]; m != hdf5.Unlimited && m < hi {
+							hi = m
+						}
+						dims = append(dims, uint64(rapid.IntRange(1, int(hi)).Draw(t, "newExtent")))
 					}
 					c.Ops = append(c.Ops, hist.Op{K: "resize", Path: o.path, Dims: dims})
 					if rapid.Bool().Draw(t, "rewrite") {
